@@ -150,7 +150,7 @@ func (env *Env) sidOf(a Val) string {
 	if l, ok := isStrLit(a); ok && l == "" {
 		return "(sid zarr 0 0)"
 	}
-	return "(sid " + sArr(a.S) + " " + sOff(a.S) + " " + add(sOff(a.S), sLen(a.S)) + ")"
+	return "(sid " + sArr(a.S) + " " + sOff(a.S) + " " + sHi(a.S) + ")"
 }
 
 func (env *Env) litEq(a Val, l string) string {
@@ -186,6 +186,12 @@ func (env *Env) tr(e *E) Val {
 		}
 		if v, ok := env.lookupPkgName(env.tpkg, e.S); ok {
 			return v
+		}
+		for _, gv := range m.specs.Ghost {
+			if gv.Name == e.S {
+				m.comps[gv.Name] = gv.Type
+				return Val{S: env.heap(gv.Name), Sort: gv.Type}
+			}
 		}
 		sfail("unknown identifier %s", e.S)
 	case "int":
@@ -281,7 +287,7 @@ func (env *Env) tr(e *E) Val {
 			if e.A[2] != nil {
 				hi = env.tr(e.A[2]).S
 			}
-			return Val{S: mkStr(sArr(x.S), add(sOff(x.S), lo), sub(hi, lo)), Sort: "Str", G: x.G}
+			return Val{S: mkStrLH(sArr(x.S), add(sOff(x.S), lo), add(sOff(x.S), hi)), Sort: "Str", G: x.G}
 		case "Slice":
 			hi := slLen(x.S)
 			if e.A[2] != nil {
@@ -312,6 +318,12 @@ func (env *Env) tr(e *E) Val {
 		for _, q := range e.Vars {
 			s, g := env.specSort(q.Type)
 			n := "q_" + q.Name
+			if s == "Str" {
+				// a quantified sequence is three variables so that triggers contain no selectors
+				vars[q.Name] = Val{S: mkStrLH(n+"_a", n+"_l", n+"_h"), Sort: s, G: g}
+				decl = append(decl, "("+n+"_a (Array Int Int))", "("+n+"_l Int)", "("+n+"_h Int)")
+				continue
+			}
 			vars[q.Name] = Val{S: n, Sort: s, G: g}
 			decl = append(decl, "("+n+" "+s+")")
 		}
@@ -512,6 +524,26 @@ func (env *Env) trBin(e *E) Val {
 
 // bit operations on non-negative ints via 64-bit vectors
 func bitop(op, a, b string) string {
+	if x, err := strconv.ParseUint(a, 10, 64); err == nil {
+		if y, err := strconv.ParseUint(b, 10, 64); err == nil {
+			var r uint64
+			switch op {
+			case "&":
+				r = x & y
+			case "|":
+				r = x | y
+			case "^":
+				r = x ^ y
+			case "&^":
+				r = x &^ y
+			case "<<":
+				r = x << y
+			case ">>":
+				r = x >> y
+			}
+			return fmt.Sprint(r)
+		}
+	}
 	f := map[string]string{"&": "bvand", "|": "bvor", "^": "bvxor", "<<": "bvshl", ">>": "bvlshr"}[op]
 	if op == "&^" {
 		return "(bv2nat (bvand ((_ int2bv 64) " + a + ") (bvnot ((_ int2bv 64) " + b + "))))"
@@ -561,7 +593,7 @@ func (env *Env) trCall(e *E) Val {
 		if x.Sort == "Slice" {
 			return Val{S: add(slOff(x.S), slLen(x.S)), Sort: "Int"}
 		}
-		return Val{S: add(sOff(x.S), sLen(x.S)), Sort: "Int"}
+		return Val{S: sHi(x.S), Sort: "Int"}
 	case "arrof":
 		x := env.view(arg(0))
 		return Val{S: sArr(x.S), Sort: "(Array Int Int)"}
@@ -580,7 +612,7 @@ func (env *Env) trCall(e *E) Val {
 		x = env.view(x)
 		return Val{S: sel(sArr(x.S), arg(1).S), Sort: "Int"}
 	case "mkseq":
-		return Val{S: mkStr(arg(0).S, arg(1).S, sub(arg(2).S, arg(1).S)), Sort: "Str", G: types.Typ[types.String]}
+		return Val{S: mkStrLH(arg(0).S, arg(1).S, arg(2).S), Sort: "Str", G: types.Typ[types.String]}
 	case "ref":
 		x := arg(0)
 		if x.Sort == "Slice" {
@@ -622,10 +654,13 @@ func (env *Env) trCall(e *E) Val {
 		return Val{S: "(eolA " + arg(0).S + " " + arg(1).S + " " + arg(2).S + ")", Sort: "Int"}
 	case "eol": // eol(d, P): absolute position of the end of the line containing absolute P
 		d := env.view(arg(0))
-		return Val{S: "(eolA " + sArr(d.S) + " " + arg(1).S + " " + add(sOff(d.S), sLen(d.S)) + ")", Sort: "Int"}
+		return Val{S: "(eolA " + sArr(d.S) + " " + arg(1).S + " " + sHi(d.S) + ")", Sort: "Int"}
 	case "TrimSpace":
 		d := env.view(arg(0))
-		return Val{S: "(trimA " + sArr(d.S) + " " + sOff(d.S) + " " + add(sOff(d.S), sLen(d.S)) + ")", Sort: "Str", G: types.Typ[types.String]}
+		return Val{S: "(trimA " + sArr(d.S) + " " + sOff(d.S) + " " + sHi(d.S) + ")", Sort: "Str", G: types.Typ[types.String]}
+	case "sameStr": // structural identity of two string values (same array window)
+		a, b := env.view(arg(0)), env.view(arg(1))
+		return Val{S: eq(a.S, b.S), Sort: "Bool"}
 	case "sid":
 		return Val{S: env.sidOf(env.view(arg(0))), Sort: "Int"}
 	case "fresh": // fresh(x): reference allocated after function entry
@@ -699,7 +734,7 @@ func (env *Env) callSpecFunc(sf *SpecFunc, e *E) Val {
 		if ps == "Str" {
 			a = env.view(a)
 			if sf.Body == nil || sf.Opaque {
-				args = append(args, sArr(a.S), sOff(a.S), add(sOff(a.S), sLen(a.S)))
+				args = append(args, sArr(a.S), sOff(a.S), sHi(a.S))
 				continue
 			}
 		}
@@ -773,7 +808,7 @@ func (m *Mod) ensureSpecFunc(sf *SpecFunc, from *Env) {
 		if s == "Str" {
 			qv = append(qv, "("+n+"_a (Array Int Int))", "("+n+"_l Int)", "("+n+"_h Int)")
 			app = append(app, n+"_a", n+"_l", n+"_h")
-			oenv.vars[p.Name] = Val{S: mkStr(n+"_a", n+"_l", "(- "+n+"_h "+n+"_l)"), Sort: "Str", G: g}
+			oenv.vars[p.Name] = Val{S: mkStrLH(n+"_a", n+"_l", n+"_h"), Sort: "Str", G: g}
 		} else {
 			qv = append(qv, "("+n+" "+s+")")
 			app = append(app, n)
